@@ -347,6 +347,14 @@ def run(ctx, fb, cfg):
             unreachable_sites += len(sites)
             continue
         ctx.fn_seen(p)
+        # a private helper all of whose call sites are in one function is inventoried as part of that function
+        # (extract-function refactorings move a site, they do not add one)
+        owner = p
+        helpers = sym.helper_fns(lib)
+        hops = 0
+        while owner.split("::{closure")[0] in helpers and hops < 4:
+            owner = helpers[owner.split("::{closure")[0]]
+            hops += 1
         g = guarded_sites(lib, lib.fns.get(p.split("::{closure")[0], fn)) if True else {}
         n_unwrap_guarded = g.get("guarded", 0) if g else 0
         n_unwrap_sites = len([s for s in sites if s[0] == "unwrap"])
@@ -356,7 +364,8 @@ def run(ctx, fb, cfg):
             groups.setdefault((kind, detail), []).append(sp)
         for (kind, detail), sps in sorted(groups.items()):
             total += len(sps)
-            key = "%s|%s|%s" % (p, kind, detail.strip('"')[:50])
+            in_table = any(k_ == kind and (p.endswith(fs_) or fs_ in p) and d_ in detail for fs_, k_, d_, _c, _m, _r in TABLE)
+            key = "%s|%s|%s" % (p if in_table or owner == p else owner, kind, detail.strip('"')[:50])
             site = site_of(sps[0])
             if "/rustlib/" in site:
                 site = site_of(fn)
@@ -381,9 +390,12 @@ def run(ctx, fb, cfg):
                 continue
             # 2. table
             hit = None
-            for i, (fs, k, d, cls, mx, reason) in enumerate(TABLE):
-                if k == kind and (p.endswith(fs) or fs in p) and d in detail:
-                    hit = i
+            for who in (p, owner):
+                for i, (fs, k, d, cls, mx, reason) in enumerate(TABLE):
+                    if k == kind and (who.endswith(fs) or fs in who) and d in detail:
+                        hit = i
+                        break
+                if hit is not None:
                     break
             if hit is None:
                 ctx.violation(R, key, site, "panic-capable site (%s %s) reachable from goal solving is neither provably guarded nor a documented precondition: a well-formed program may panic here" % (kind, detail))
